@@ -19,7 +19,7 @@ def def_program(draw):
         for k in range(draw(st.integers(2, 5))):
             if kw == "class" and draw(st.integers(0, 2)) == 0:
                 items.append({"vis": draw(st.sampled_from(["private", "protected", "public"]))})
-            form = draw(st.sampled_from(["plain", "plain", "self", "endless", "multi", "sing"]))
+            form = draw(st.sampled_from(["plain", "plain", "self", "endless", "multi", "sing", "endless-multi", "endless-self"]))
             it = {"form": form, "name": "%s_m%d" % (c.lower(), k)}
             if form == "sing" and draw(st.integers(0, 1)) == 0:
                 # a visibility keyword *inside* the singleton body does apply to the class-side definition
@@ -51,6 +51,13 @@ def render(case):
             elif form == "endless":
                 defs.append((len(lines) + 1, "i", vis, cn, name, form))
                 lines += ["  def %s(a) = a" % name]
+            elif form == "endless-multi":
+                # endless definition whose parameter list spans several lines: the definition is still the `def` row
+                defs.append((len(lines) + 1, "i", vis, cn, name, form))
+                lines += ["  def %s(" % name, "    a,", "    b = 2", "  ) = a"]
+            elif form == "endless-self":
+                defs.append((len(lines) + 1, "c", "public", cn, name, form))
+                lines += ["  def self.%s(a," % name, "      b = 2) = a"]
             elif form == "multi":
                 defs.append((len(lines) + 1, "i", vis, cn, name, form))
                 lines += ["  def %s(a," % name, "      b = 1)", "    a", "  end"]
@@ -165,5 +172,5 @@ class Check(Prop):
     def matchers(self):
         def m_class_side(case, v, params):
             """Class-side definition (def self. / class << self) written after a bare private/protected."""
-            return v.get("form") in ("self", "sing") and v.get("section") in ("private", "protected")
+            return v.get("form") in ("self", "sing", "endless-self") and v.get("section") in ("private", "protected")
         return {"c22_class_side_after_visibility": m_class_side}
